@@ -174,6 +174,26 @@ func (r *chunkReader) Read(p []byte) (int, error) {
 	return n, nil
 }
 
+// failReader delivers failAfter bytes and then a non-EOF error
+type failReader struct {
+	data      []byte
+	failAfter int
+	sent      int
+}
+
+func (r *failReader) Read(p []byte) (int, error) {
+	if r.sent >= r.failAfter {
+		return 0, fmt.Errorf("reader failed after %d bytes", r.sent)
+	}
+	n := r.failAfter - r.sent
+	if n > len(p) {
+		n = len(p)
+	}
+	copy(p, r.data[r.sent:r.sent+n])
+	r.sent += n
+	return n, nil
+}
+
 func run(c *core.Case, st *core.CaseStats, seed int64) {
 	if rng == nil {
 		rng = rand.New(rand.NewSource(seed))
@@ -365,6 +385,41 @@ func run(c *core.Case, st *core.CaseStats, seed int64) {
 			}
 			if err != nil || string(got) != want {
 				rep("stream:"+name, "value", in, want, fmt.Sprint(string(got), err))
+			}
+		})
+	case "digeststreamerr":
+		name, n, after := argS(c, 0), argI(c, 1), argI(c, 2)
+		d := rb(n)
+		in := map[string]interface{}{"digest": name, "n": n, "fails_after": after}
+		st.Nontrivial++
+		h := hasher(name)()
+		h.Write(d)
+		want := hex.EncodeToString(h.Sum(nil))
+		call := func(r io.Reader) ([]byte, error) {
+			switch name {
+			case "md5":
+				return hashz.Md5Stream(r)
+			case "sha1":
+				return hashz.Sha1Stream(r)
+			case "sha224":
+				return hashz.Sha224Stream(r)
+			case "sha256":
+				return hashz.Sha256Stream(r)
+			case "sha384":
+				return hashz.Sha384Stream(r)
+			}
+			return hashz.Sha512Stream(r)
+		}
+		guard("digeststreamerr", in, func() {
+			for k := 0; k < 3; k++ {
+				if _, err := call(&failReader{data: rb(after + 5), failAfter: after}); err == nil {
+					rep("stream:"+name, "value", in, "the reader's error", "nil")
+				}
+				got, err := call(bytes.NewReader(d))
+				if err != nil || string(got) != want {
+					rep("stream:"+name, "value", in, want, fmt.Sprint(string(got), err))
+					return
+				}
 			}
 		})
 	case "hmac":
